@@ -134,6 +134,16 @@ def run(chk):
             else:
                 chk.violate("the optimisation switches change the result at budget %d" % b, inp, "four identical results or convergence errors",
                             [(c, l[:160]) for c, l in per_budget[b]])
+    # the decidable hypotheses of the theorem `assemble_switch_success` (the two front ends related, the facts about
+    # constants), evaluated by the model on every program: they are part of what ties the theorem to this input
+    frel_ops = ["frel " + fw.asm_op([("main.asm", text)], max_iter=BIG, defs=defs) for (text, defs, budgets) in cases]
+    fres = fw.run_model(frel_ops, "c08f", timeout=3000)
+    for (text, defs, budgets), r in zip(cases, fres):
+        chk.evaluations += 1
+        if r in ("frel related oks", "frel same-error"):
+            chk.count("front_ends_related_" + ("ok" if r.endswith("oks") else "err"))
+        else:
+            chk.disagree("hypotheses of assemble_switch_success (FrontRel, frontOKSb) on program:\n%s" % text[-500:], "frel related oks", r)
     if mdiff_ops:
         res = fw.run_model(mdiff_ops, "c08m")
         for (inp, got), r in zip(mdiff_for, res):
